@@ -183,8 +183,8 @@ class _Dialect(type):
 
     @property
     def classes(cls):
-        if len(DIALECT_MODULE_NAMES) != len(cls._classes):
-            for key in DIALECT_MODULE_NAMES:
+        for key in DIALECT_MODULE_NAMES:
+            if key not in cls._classes:
                 cls._try_load(key)
 
         return cls._classes
